@@ -8,6 +8,8 @@ transcription of the region definition.
 """
 import math
 
+import numpy as np
+
 from vf.core import HarnessError
 from vf.repo import R
 
@@ -113,6 +115,53 @@ def run_inverse(ctx, spec):
         ctx.maximum('|sat(tsat(p))/p-1|', abs(p2 / p - 1), case)
         if abs(p2 / p - 1) > 1e-8:
             ctx.violation('sat-of-tsat:%s' % where, 'sat(tsat(%r)) = %r' % (p, p2), case)
+    # both functions against an own 60-digit evaluation of the release's equations (vf/oracle/iapws_sat_ref.py, checked
+    # against the release's verification values first), on a grid and - densely - around the two states inside the range
+    # where the leading coefficient of the quadratic each of them solves passes through zero (a root formula that is
+    # not written for that case loses all its digits there, and only there)
+    from vf.oracle import iapws_sat_ref as SR
+    bad = SR.selfcheck()
+    if bad:
+        raise HarnessError('own saturation-line reference fails the verification values of the release: %r' % (bad,))
+    t0, p0 = SR.degenerate_temperature_c(), SR.degenerate_pressure_pa()
+
+    def around(x0, rel):
+        out, up, dn = [x0], x0, x0
+        for _ in range(40):
+            up, dn = math.nextafter(up, math.inf), math.nextafter(dn, -math.inf)
+            out += [up, dn]
+        for j in range(2, 15):
+            d = (abs(x0) if rel else 1.0) * 10.0 ** -j
+            out += [x0 + d, x0 - d, x0 + 3.7 * d, x0 - 3.7 * d]
+        return out
+    for t in lin(0.01, TCRIT, n // 8) + around(t0, False) + [ctx.rng.uniform(0.01, TCRIT) for _ in range(n // 8)]:
+        case = {'clause': 'sat(t) against the release equation', 't': t}
+        with ctx.guard(case) as g:
+            p = W.sat(t)
+        if g.raised is not None:
+            continue
+        ctx.evaluated()
+        ctx.count('saturation_reference_comparisons')
+        near = abs(t - t0) < 1e-2
+        ctx.see('reference_probe', 'sat near degenerate point' if near else 'sat elsewhere')
+        ref = float(SR.sat_pa(t))
+        if p is None or not (p == p) or abs(p / ref - 1) > 1e-11:
+            ctx.violation('sat-differs-from-release-equation:%s' % ('degenerate-point' if near else 'interior'),
+                          'sat(%r) = %r, equation 30 gives %r (relative difference %.3g)' % (t, p, ref, (p / ref - 1) if p else float('nan')), case)
+    for p in [min(PCRIT, max(611.657, math.exp(x))) for x in lin(math.log(611.657), math.log(PCRIT), n // 8)] + around(p0, True):
+        case = {'clause': 'tsat(p) against the release equation', 'p': p}
+        with ctx.guard(case) as g:
+            t = W.tsat(p)
+        if g.raised is not None:
+            continue
+        ctx.evaluated()
+        ctx.count('saturation_reference_comparisons')
+        near = abs(p / p0 - 1) < 1e-4
+        ctx.see('reference_probe', 'tsat near degenerate point' if near else 'tsat elsewhere')
+        ref = float(SR.tsat_c(p))
+        if t is None or not (t == t) or abs(t - ref) > 1e-8:
+            ctx.violation('tsat-differs-from-release-equation:%s' % ('degenerate-point' if near else 'interior'),
+                          'tsat(%r) = %r, equation 31 gives %r (difference %.3g K)' % (p, t, ref, (t - ref) if t is not None else float('nan')), case)
     # saturation pressure strictly increasing
     prev = None
     for t in lin(0.01, TCRIT, n):
